@@ -174,7 +174,8 @@ example :
   unfold CF.WF ElemOK
   decide +kernel
 
-/-- **Nested `dot[cart₁[p0 … p(Pi-1)], plain ports]`, any arrival order** (the tree the CWL translator builds for a
+/-- **Nested `dot[plain ports…, cart₁[p0 … p(Pi-1)], plain ports…]`, any arrival order** (`Shape items i0 …`, see
+    `nested_items_shape`) (the tree the CWL translator builds for a
     cross-product scatter plus non-scattered inputs). `WFNest Pi L plains S`: the tokens of the inner ports form a
     well-formed stream of the depth-1 cartesian product (`WFCart 1 Pi L`), all tags are rooted at `0`, no repeated
     event, the other tokens arrive on the listed plain ports, on every plain port no tag is a prefix of another.
@@ -183,12 +184,19 @@ example :
     arrival order the emitted schemas are, each up to the order of its entries, exactly one combination per
     complete tag of `derivedSpec` (`specE`): the composition of the two rules, the same multiset for every order.
     The nested run raises nothing. NOT covered here: an inner cartesian product of depth ≥ 2. -/
-theorem nested_cart_any_order (Pi L : Nat) (plains : List Nat) (S es : List Ev) (hwf : WFNest Pi L plains S)
-    (hperm : es.Perm S) :
-    (runNested (nestItems Pi plains) es).err = none ∧
-    ∃ N, EmRel (runNested (nestItems Pi plains) es).out N ∧
-      N.Perm (specE (plains.length + 1) (derivedSpec Pi plains S)) :=
-  Comb.nested_cart_any_order S es hwf hperm
+theorem nested_cart_any_order (Pi L : Nat) (plains : List Nat) (items : List Item) (i0 : Nat)
+    (hs : Shape items i0 (.cart 1) Pi plains) (S es : List Ev) (hwf : WFNest Pi L plains S) (hperm : es.Perm S) :
+    (runNested items es).err = none ∧
+    ∃ N, EmRel (runNested items es).out N ∧
+      N.Perm (specE items.length (derivedSpec items i0 Pi S)) :=
+  Comb.nested_cart_any_order hs S es hwf hperm
+
+/-- the item lists covered by the nested theorems: plain ports `A`, then the inner combinator (kind `k`, ports
+    `0 … Pi-1` — a labelling convention: number the inner ports first), then plain ports `B`; the inner combinator
+    sits at position `A.length` -/
+theorem nested_items_shape (k : Kind) (Pi : Nat) (A B : List Nat) :
+    Shape (nestItemsAt k Pi A B) A.length k Pi (A ++ B) :=
+  shape_at k Pi A B
 
 /-- non-vacuity: two inner ports with two tokens each, the broadcast token `0` on plain port 2 -/
 example : WFNest 2 2 [2] [(0, ⟨[0, 0], 1⟩), (0, ⟨[0, 1], 2⟩), (1, ⟨[0, 0], 3⟩), (1, ⟨[0, 1], 4⟩), (2, ⟨[0], 5⟩)] := by
@@ -199,11 +207,15 @@ example : WFNest 2 2 [2] [(0, ⟨[0, 0], 1⟩), (0, ⟨[0, 1], 2⟩), (1, ⟨[0,
   · decide
   · decide
   · decide
-example : (specE 2 (derivedSpec 2 [2]
+example : (specE 2 (derivedSpec (nestItems 2 [2]) 0 2
     [(0, ⟨[0, 0], 1⟩), (0, ⟨[0, 1], 2⟩), (1, ⟨[0, 0], 3⟩), (1, ⟨[0, 1], 4⟩), (2, ⟨[0], 5⟩)])).map (·.1) =
     [[0, 0, 0], [0, 0, 1], [0, 1, 0], [0, 1, 1]] := by decide +kernel
+/-- the inner combinator in the middle: `dot[p5, cart₁[p0, p1], p7]` — four combinations of four tokens each -/
+example : ((runNested (nestItemsAt (.cart 1) 2 [5] [7])
+    [(5, ⟨[0], 9⟩), (0, ⟨[0, 0], 1⟩), (0, ⟨[0, 1], 2⟩), (7, ⟨[0], 8⟩), (1, ⟨[0, 0], 3⟩), (1, ⟨[0, 1], 4⟩)]).out.map
+      List.length) = [4, 4, 4, 4] := by decide +kernel
 
-/-- **Nested `dot[dot[p0 … p(Pi-1)], plain ports]`, any arrival order** (the tree the CWL translator builds for a
+/-- **Nested `dot[plain ports…, dot[p0 … p(Pi-1)], plain ports…]`, any arrival order** (`Shape items i0 …`) (the tree the CWL translator builds for a
     dot-product scatter plus non-scattered inputs). `WFNestD Pi M plains S`: `Pi ≥ 1`, ports below `M`, the tokens of
     the inner ports form a well-formed stream of the dot product (`WFDot Pi`), all tags rooted at `0`, no repeated
     event, the other tokens arrive on the listed plain ports, on every plain port no tag is a prefix of another.
@@ -213,12 +225,12 @@ example : (specE 2 (derivedSpec 2 [2]
     schemas come in dict order) which, after sorting the entries of every element by port (`canonEv M`), is a
     permutation of `derivedSpecD`, and the emitted schemas are, each up to the order of its entries, exactly one
     combination per complete tag of `D` (`specE`); the nested run raises nothing. -/
-theorem nested_dot_any_order (Pi M : Nat) (plains : List Nat) (S es : List Ev) (hwf : WFNestD Pi M plains S)
-    (hperm : es.Perm S) :
-    (runNested (nestItemsD Pi plains) es).err = none ∧
-    ∃ D N, (D.map (canonEv M)).Perm (derivedSpecD Pi plains S) ∧
-      EmRel (runNested (nestItemsD Pi plains) es).out N ∧ N.Perm (specE (plains.length + 1) D) :=
-  Comb.nested_dot_any_order S es hwf hperm
+theorem nested_dot_any_order (Pi M : Nat) (plains : List Nat) (items : List Item) (i0 : Nat)
+    (hs : Shape items i0 .dot Pi plains) (S es : List Ev) (hwf : WFNestD Pi M plains S) (hperm : es.Perm S) :
+    (runNested items es).err = none ∧
+    ∃ D N, (D.map (canonEv M)).Perm (derivedSpecD items i0 Pi S) ∧
+      EmRel (runNested items es).out N ∧ N.Perm (specE items.length D) :=
+  Comb.nested_dot_any_order hs S es hwf hperm
 
 /-- non-vacuity: inner dot product over ports 0, 1 (tags `0.0`, `0.1` on both), the broadcast token `0` on plain port 2 -/
 example : WFNestD 2 3 [2] [(0, ⟨[0, 0], 1⟩), (0, ⟨[0, 1], 2⟩), (1, ⟨[0, 0], 3⟩), (1, ⟨[0, 1], 4⟩), (2, ⟨[0], 5⟩)] := by
@@ -231,7 +243,7 @@ example : WFNestD 2 3 [2] [(0, ⟨[0, 0], 1⟩), (0, ⟨[0, 1], 2⟩), (1, ⟨[0
   · decide
   · decide
   · decide
-example : (specE 2 (derivedSpecD 2 [2]
+example : (specE 2 (derivedSpecD (nestItemsD 2 [2]) 0 2
     [(0, ⟨[0, 0], 1⟩), (0, ⟨[0, 1], 2⟩), (1, ⟨[0, 0], 3⟩), (1, ⟨[0, 1], 4⟩), (2, ⟨[0], 5⟩)])).map (·.1) =
     [[0, 0], [0, 1]] := by decide +kernel
 
